@@ -3,6 +3,9 @@
 //! ops (vectors are `<len> <x…>`):
 //! * `csr <indptr> <indices> <data> <partition> <weights>`   raw CSR storage of a square view
 //!     out: `eg=<generic edge cut> es=<sprs edge cut> lg=<generic lambda> ls=<sprs lambda>`
+//! * `csc <indptr> <indices> <data> <partition> <weights>`   the same raw arrays under a view whose storage
+//!     flag is CSC (vertex = outer dimension = column; the neighbours of a vertex are its outer slice in both
+//!     storages, so the definition on the outer slices and the model are those of `csr`); out as `csr`
 //! * `grid2 <w> <h> <partition> <weights>` / `grid3 <w> <h> <d> <partition> <weights>`
 //!     out: `eg=<Grid edge cut> lg=<Grid lambda> ce=<lattice CSR, sprs edge cut> cl=<lattice CSR, sprs lambda>`
 //! * `nbrs2 <w> <h>` / `nbrs3 <w> <h> <d>`
@@ -215,7 +218,112 @@ impl Verdicts {
     }
 }
 
-fn run_csr(ctx: &mut Ctx, op: &str, t: &mut Toks) {
+/// The four topology calls (generic edge cut, sprs edge cut, generic lambda, sprs lambda) on one
+/// view in the 4-thread pool.
+fn four_calls(view: &View, p: &[usize], ws: &[i64]) -> [Res<i64>; 4] {
+    let pool = &pools()[1];
+    [
+        guarded(|| pool.install(|| <&View as Topology<i64>>::edge_cut(&view, p))),
+        guarded(|| pool.install(|| <View as Topology<i64>>::edge_cut(view, p))),
+        guarded(|| pool.install(|| <&View as Topology<i64>>::lambda_cut(&view, p, ws.to_vec()))),
+        guarded(|| pool.install(|| <View as Topology<i64>>::lambda_cut(view, p, ws.to_vec()))),
+    ]
+}
+
+/// STORAGE-ORDER oracle of a valid view (sorted rows, partition long enough). The code never looks
+/// at the storage flag: a vertex is an outer slice. Hence
+/// * the same arrays under the other flag (`transpose_view`) must give the same four values;
+/// * the same MATRIX in the other storage (`to_other_storage`: its outer slices are the rows of
+///   the transpose) must give, through both paths, the definition evaluated on the transpose --
+///   which for a symmetric matrix is the same number as for the original.
+#[allow(clippy::too_many_arguments)]
+fn cross_storage(
+    ctx: &mut Ctx,
+    v: &mut Verdicts,
+    view: &View,
+    rows: &[Vec<(usize, i64)>],
+    d: &[Vec<i64>],
+    symmetric: bool,
+    offset: bool,
+    p: &[usize],
+    ws: &[i64],
+    want_e: i64,
+    want_l: i64,
+) {
+    const NAMES: [&str; 4] = ["generic edge_cut", "sprs edge_cut", "generic lambda_cut", "sprs lambda_cut"];
+    let n = rows.len();
+    // (a) same arrays, other storage flag
+    let flipped = view.transpose_view();
+    let got = four_calls(&flipped, p, ws);
+    let want = [want_e, want_e, want_l, want_l];
+    for k in 0..4 {
+        if got[k] != Ok(want[k]) {
+            if offset && got[k].is_err() {
+                v.add("sprs-offset-indptr-panic", format!("{} {} on the flipped view", NAMES[k], show(&got[k])));
+            } else {
+                v.add(
+                    "storage-flag-dependent",
+                    format!(
+                        "{} gives {} when the same arrays are viewed as {:?}, but {} (the definition on the outer slices) as {:?}",
+                        NAMES[k], show(&got[k]), flipped.storage(), want[k], view.storage()
+                    ),
+                );
+            }
+        }
+    }
+    ctx.count("csr:cross-storage:flag-flipped");
+    // (b) same matrix, other storage (skipped for views with a non-zero first offset: the
+    // conversion is sprs code, keep the judged surface to coupe)
+    if offset {
+        return;
+    }
+    let mut rows_t: Vec<Vec<(usize, i64)>> = vec![vec![]; n];
+    for (r, row) in rows.iter().enumerate() {
+        for &(c, w) in row {
+            rows_t[c].push((r, w));
+        }
+    }
+    let d_t: Vec<Vec<i64>> = (0..n).map(|i| (0..n).map(|j| d[j][i]).collect()).collect();
+    let want_te = naive_edge_cut(&d_t, p);
+    let want_tl = naive_lambda(&rows_t, p, ws);
+    if symmetric && (want_te != want_e || want_tl != want_l) {
+        v.add("oracle-self-check", "the definition differs between a symmetric matrix and its transpose".into());
+    }
+    let other = view.to_other_storage();
+    let ov: View = other.view();
+    let converted_ok = ov.check_compressed_structure().is_ok()
+        && (0..n).all(|i| {
+            let o = ov.outer_view(i).unwrap();
+            o.indices().iter().cloned().zip(o.data().iter().cloned()).eq(rows_t[i].iter().cloned())
+        });
+    if !converted_ok {
+        // not coupe's business
+        ctx.count("csr:cross-storage:conversion-unexpected");
+        return;
+    }
+    let got = four_calls(&ov, p, ws);
+    let want = [want_te, want_te, want_tl, want_tl];
+    const SIGS: [&str; 4] = [
+        "other-storage-generic-edge-cut",
+        "other-storage-sprs-edge-cut",
+        "other-storage-generic-lambda-cut",
+        "other-storage-sprs-lambda-cut",
+    ];
+    for k in 0..4 {
+        if got[k] != Ok(want[k]) {
+            v.add(
+                SIGS[k],
+                format!(
+                    "{} gives {} on the same matrix stored as {:?} ({}), but the definition on its outer slices gives {}",
+                    NAMES[k], show(&got[k]), ov.storage(), if symmetric { "symmetric" } else { "non-symmetric" }, want[k]
+                ),
+            );
+        }
+    }
+    ctx.count(if symmetric { "csr:cross-storage:converted:symmetric" } else { "csr:cross-storage:converted:non-symmetric" });
+}
+
+fn run_csr(ctx: &mut Ctx, op: &str, t: &mut Toks, csc: bool) {
     let parsed = (|| {
         let indptr: Vec<usize> = t.vec()?;
         let indices: Vec<usize> = t.vec()?;
@@ -242,7 +350,16 @@ fn run_csr(ctx: &mut Ctx, op: &str, t: &mut Toks) {
         return;
     }
     let n = indptr.len() - 1;
-    let view: View = match CsMatView::try_new((n, n), &indptr[..], &indices[..], &data[..]) {
+    let storage = if csc { CompressedStorage::CSC } else { CompressedStorage::CSR };
+    let built = if csc {
+        CsMatView::try_new_csc((n, n), &indptr[..], &indices[..], &data[..])
+    } else {
+        CsMatView::try_new((n, n), &indptr[..], &indices[..], &data[..])
+    };
+    if csc {
+        ctx.count("csr:storage=csc");
+    }
+    let view: View = match built {
         Ok(v) => {
             ctx.count("csr:valid");
             v
@@ -252,7 +369,7 @@ fn run_csr(ctx: &mut Ctx, op: &str, t: &mut Toks) {
             // SAFETY: sizes and index ranges were checked above; only the order inside the rows
             // is not what sprs requires, and every access made by coupe and by `outer_view` is a
             // checked slice access.
-            unsafe { CsMatView::new_unchecked(CompressedStorage::CSR, (n, n), &indptr[..], &indices[..], &data[..]) }
+            unsafe { CsMatView::new_unchecked(storage, (n, n), &indptr[..], &indices[..], &data[..]) }
         }
     };
     let valid = view.check_compressed_structure().is_ok();
@@ -293,6 +410,7 @@ fn run_csr(ctx: &mut Ctx, op: &str, t: &mut Toks) {
                 let sig = if offset && ls.is_err() { "sprs-offset-indptr-panic" } else { "sprs-lambda-cut" };
                 v.add(sig, format!("sprs lambda_cut {} but the definition (and the generic method) give {}", show(&ls), want_l));
             }
+            cross_storage(ctx, &mut v, &view, &rows, &d, symmetric, offset, &p, &ws, want_e, want_l);
         } else {
             // precondition of the specialisation (sorted rows) not met: only counted
             if es != Ok(want_e) {
@@ -2072,7 +2190,8 @@ pub fn run_op(ctx: &mut Ctx, op: &str) {
     }
     let mut t = Toks(op.split_whitespace());
     match t.0.next() {
-        Some("csr") => run_csr(ctx, op, &mut t),
+        Some("csr") => run_csr(ctx, op, &mut t, false),
+        Some("csc") => run_csr(ctx, op, &mut t, true),
         Some("grid2") => run_grid(ctx, op, &mut t, 2),
         Some("grid3") => run_grid(ctx, op, &mut t, 3),
         Some("nbrs2") => run_nbrs(ctx, op, &mut t, 2),
@@ -2308,10 +2427,360 @@ fn gen_csr(ctx: &mut Ctx) {
         }
         _ => {
             ctx.count("csr_stream:valid");
-            let op = csr_op(&rows, 0, &p, &ws);
+            let name = if ctx.rng.chance(1, 3) { "csc" } else { "csr" };
+            let op = mat_op(name, &rows, 0, &p, &ws);
             run_op(ctx, &op);
         }
     }
+}
+
+// ------------------------------------------------------------------ DEGREE x DISTINCT-PARTS seams
+//
+// Fast paths of lambda_cut / edge_cut are typically selected by the LENGTH of a row (small rows in
+// a stack buffer or a bit set, long rows in a hash set; short rows scanned, long rows bisected at
+// the diagonal) and sized by the number of DISTINCT PARTS they can hold. The streams below put a
+// row of exactly `d` entries next to every number of distinct parts its closed neighbourhood can
+// have (d + 1, d, d - 1, 2, 1, random) for every d in a contiguous range and around the powers of
+// two, with the row's vertex first / last / in the middle (0, d, d/2 entries below the diagonal),
+// in symmetric and non-symmetric matrices and under both storage flags.
+
+fn mat_op(name: &str, rows: &[Vec<(usize, i64)>], offset: usize, p: &[usize], ws: &[i64]) -> String {
+    let s = csr_op(rows, offset, p, ws);
+    format!("{}{}", name, &s[3..])
+}
+
+/// Injective maps of small part ids: the number of distinct parts is unchanged.
+fn seam_id(m: usize, x: usize) -> usize {
+    match m {
+        0 => x,
+        1 => x * 1000 + 7,
+        2 => (x << 32) | 5,
+        _ => usize::MAX - x,
+    }
+}
+
+const SEAM_MODES: [&str; 7] = ["d+1", "d(own-shared)", "d(pair-shared)", "d-1", "1", "2", "random"];
+
+/// Local part ids of a closed neighbourhood of `d + 1` vertices (slot 0 = the vertex itself,
+/// slots 1..=d its neighbours) with the number of distinct parts named by `SEAM_MODES[mode]`
+/// (as far as `d` allows).
+fn seam_parts(ctx: &mut Ctx, mode: usize, d: usize) -> Vec<usize> {
+    let m = d + 1;
+    let mut q: Vec<usize> = (0..m).collect();
+    fn pair(ctx: &mut Ctx, q: &mut [usize], d: usize) -> usize {
+        // two neighbours share a part; returns one of them
+        let j = 1 + ctx.rng.usize(d);
+        let k = if j == d { 1 } else { j + 1 };
+        q[k] = q[j];
+        j
+    }
+    match mode {
+        0 => {}
+        1 => {
+            if d >= 1 {
+                let j = 1 + ctx.rng.usize(d);
+                q[0] = q[j];
+            }
+        }
+        2 => {
+            if d >= 2 {
+                pair(ctx, &mut q, d);
+            }
+        }
+        3 => {
+            if d >= 2 {
+                let j = pair(ctx, &mut q, d);
+                q[0] = q[j];
+            }
+        }
+        4 => {
+            for x in q.iter_mut() {
+                *x = 0;
+            }
+        }
+        5 => {
+            for x in q.iter_mut().skip(1) {
+                *x = 1;
+            }
+        }
+        _ => {
+            let t = 1 + ctx.rng.usize(m);
+            for x in q.iter_mut() {
+                *x = ctx.rng.usize(t);
+            }
+        }
+    }
+    q
+}
+
+fn seam_edge_weight(ctx: &mut Ctx, wmode: usize) -> i64 {
+    match wmode {
+        0 => 1,
+        1 => ctx.rng.range(1, 9),
+        2 => ctx.rng.range(1, 1_000_000_000),
+        _ => ctx.rng.range(-9, 9),
+    }
+}
+
+fn seam_bucket(d: usize) -> &'static str {
+    match d {
+        0..=8 => "0-8",
+        9..=16 => "9-16",
+        17..=31 => "17-31",
+        32 => "32",
+        33..=63 => "33-63",
+        64 => "64",
+        65..=80 => "65-80",
+        81..=127 => "81-127",
+        128 => "128",
+        129..=255 => "129-255",
+        256 => "256",
+        _ => ">256",
+    }
+}
+
+const STAR_KINDS: [&str; 3] = ["star", "out-star", "in-star"];
+
+/// A star of `d + 1` vertices around `hub`: symmetric (kind 0), only the hub's row (kind 1,
+/// non-symmetric) or only the leaves' rows (kind 2, non-symmetric). The partition gives the hub's
+/// closed neighbourhood the distinct-part count of `mode`.
+#[allow(clippy::too_many_arguments)]
+fn seam_star(ctx: &mut Ctx, d: usize, hub: usize, kind: usize, mode: usize, idm: usize, wmode: usize, name: &str) {
+    let n = d + 1;
+    let hub = hub.min(d);
+    let mut rows: Vec<Vec<(usize, i64)>> = vec![vec![]; n];
+    for u in 0..n {
+        if u == hub {
+            continue;
+        }
+        let w = seam_edge_weight(ctx, wmode);
+        if kind != 2 {
+            rows[hub].push((u, w));
+        }
+        if kind != 1 {
+            rows[u].push((hub, w));
+        }
+    }
+    let q = seam_parts(ctx, mode, d);
+    let mut p = vec![0usize; n];
+    let mut slot = 1;
+    for (u, pu) in p.iter_mut().enumerate() {
+        if u == hub {
+            *pu = seam_id(idm, q[0]);
+        } else {
+            *pu = seam_id(idm, q[slot]);
+            slot += 1;
+        }
+    }
+    let mut ws: Vec<i64> = (0..n).map(|_| ctx.rng.range(1, 9)).collect();
+    ws[hub] = 1000 + ctx.rng.range(0, 999);
+    ctx.count(&format!("seam:{}:{}", STAR_KINDS[kind], name));
+    ctx.count(&format!("seam:parts={}", SEAM_MODES[mode]));
+    ctx.count(&format!("seam:degree={}", seam_bucket(d)));
+    let op = mat_op(name, &rows, 0, &p, &ws);
+    run_op(ctx, &op);
+}
+
+/// Every row has exactly `d` entries. kind 0: clique of d + 1 vertices, symmetric weights;
+/// kind 1: clique with different weights in the two directions; kind 2: directed circulant
+/// v -> v+1..v+d (mod n) on n = d + 1 + extra vertices (non-symmetric pattern); kind 3: symmetric
+/// circulant v -> v±1..v±d/2 (d even). Partition kinds: part of vertex i is i (pk 0), i mod (d+1)
+/// (pk 1), i mod d (pk 2), i mod (d-1) (pk 3), the `seam_parts` pattern of `mode` repeated (pk 4).
+#[allow(clippy::too_many_arguments)]
+fn seam_regular(ctx: &mut Ctx, d: usize, kind: usize, pk: usize, mode: usize, idm: usize, wmode: usize, name: &str) {
+    let extra = if kind >= 2 { 1 + ctx.rng.usize(4) } else { 0 };
+    let n = d + 1 + extra;
+    let mut rows: Vec<Vec<(usize, i64)>> = vec![vec![]; n];
+    match kind {
+        0 | 1 => {
+            for a in 0..n {
+                for b in 0..a {
+                    let w = seam_edge_weight(ctx, wmode);
+                    let w2 = if kind == 1 { seam_edge_weight(ctx, wmode) } else { w };
+                    rows[a].push((b, w));
+                    rows[b].push((a, w2));
+                }
+            }
+        }
+        2 => {
+            for (a, row) in rows.iter_mut().enumerate() {
+                for j in 1..=d {
+                    row.push(((a + j) % n, seam_edge_weight(ctx, wmode)));
+                }
+            }
+        }
+        _ => {
+            for a in 0..n {
+                for j in 1..=d / 2 {
+                    let w = seam_edge_weight(ctx, wmode);
+                    let b = (a + j) % n;
+                    rows[a].push((b, w));
+                    rows[b].push((a, w));
+                }
+            }
+        }
+    }
+    for r in rows.iter_mut() {
+        r.sort();
+        r.dedup_by_key(|e| e.0);
+    }
+    let q = seam_parts(ctx, mode, d);
+    let p: Vec<usize> = (0..n)
+        .map(|i| {
+            let x = match pk {
+                0 => i,
+                1 => i % (d + 1),
+                2 => i % d.max(1),
+                3 => i % d.saturating_sub(1).max(1),
+                _ => q[i % q.len()],
+            };
+            seam_id(idm, x)
+        })
+        .collect();
+    let ws: Vec<i64> = (0..n).map(|_| ctx.rng.range(1, 999)).collect();
+    ctx.count(&format!("seam:{}:{}", ["clique", "clique-asym-weights", "circulant-directed", "circulant-symmetric"][kind], name));
+    ctx.count(&format!("seam:regular-partition={}", ["identity", "mod(d+1)", "mod(d)", "mod(d-1)", "pattern"][pk]));
+    ctx.count(&format!("seam:degree={}", seam_bucket(d)));
+    let op = mat_op(name, &rows, 0, &p, &ws);
+    run_op(ctx, &op);
+}
+
+/// Randomised variant: one vertex `r` of a graph on d + 1 + extra vertices gets exactly `d` random
+/// neighbours and a closed neighbourhood with a chosen number of distinct parts; the other rows
+/// are the mirror of that row, random sparse rows, or empty; random storage flag, sometimes a
+/// non-zero first offset.
+fn seam_random(ctx: &mut Ctx) {
+    let kmax = if ctx.quick() { 8 } else { 10 };
+    let d = match ctx.rng.usize(4) {
+        0 | 1 => ctx.rng.usize(81),
+        2 => {
+            let k = 3 + ctx.rng.usize(kmax - 2);
+            ((1usize << k) + ctx.rng.usize(5)).saturating_sub(2)
+        }
+        _ => ctx.rng.usize(300),
+    };
+    let extra = ctx.rng.usize(7);
+    let n = d + 1 + extra;
+    let r = match ctx.rng.usize(4) {
+        0 => 0,
+        1 => n - 1,
+        _ => ctx.rng.usize(n),
+    };
+    let mut others: Vec<usize> = (0..n).filter(|&u| u != r).collect();
+    ctx.rng.shuffle(&mut others);
+    let nbrs: Vec<usize> = others[..d].to_vec();
+    let wmode = ctx.rng.usize(4);
+    let mut rows: Vec<Vec<(usize, i64)>> = vec![vec![]; n];
+    let fill = ctx.rng.usize(3);
+    for &u in &nbrs {
+        let w = seam_edge_weight(ctx, wmode);
+        rows[r].push((u, w));
+        if fill == 0 {
+            rows[u].push((r, w));
+        }
+    }
+    if fill == 2 {
+        // random sparse entries elsewhere (non-symmetric)
+        for _ in 0..n {
+            let (a, b) = (ctx.rng.usize(n), ctx.rng.usize(n));
+            if a != r && !rows[a].iter().any(|e| e.0 == b) {
+                let w = seam_edge_weight(ctx, wmode);
+                rows[a].push((b, w));
+            }
+        }
+    }
+    for row in rows.iter_mut() {
+        row.sort();
+    }
+    let mode = ctx.rng.usize(SEAM_MODES.len());
+    let q = seam_parts(ctx, mode, d);
+    let t = q.iter().max().map_or(1, |m| m + 1);
+    let idm = ctx.rng.usize(4);
+    let mut p: Vec<usize> = (0..n).map(|_| seam_id(idm, ctx.rng.usize(t + 2))).collect();
+    p[r] = seam_id(idm, q[0]);
+    for (j, &u) in nbrs.iter().enumerate() {
+        p[u] = seam_id(idm, q[j + 1]);
+    }
+    let mut ws: Vec<i64> = (0..n).map(|_| ctx.rng.range(1, 9)).collect();
+    ws[r] = 1000 + ctx.rng.range(0, 999);
+    let name = if ctx.rng.chance(1, 2) { "csc" } else { "csr" };
+    let offset = if ctx.rng.chance(1, 8) { 1 + ctx.rng.usize(5) } else { 0 };
+    ctx.count(&format!("seam:random:{}", name));
+    ctx.count(&format!("seam:parts={}", SEAM_MODES[mode]));
+    ctx.count(&format!("seam:degree={}", seam_bucket(d)));
+    let op = mat_op(name, &rows, offset, &p, &ws);
+    run_op(ctx, &op);
+}
+
+fn gen_seams(ctx: &mut Ctx) {
+    let mut ds: Vec<usize> = (0..=80).collect();
+    if ctx.quick() {
+        ds.extend([126, 127, 128, 129, 254, 255, 256, 257]);
+    } else {
+        ds.extend(81..=260);
+        ds.extend([511, 512, 513, 1023, 1024, 1025]);
+    }
+    let dense_cap = if ctx.quick() { 80 } else { 130 };
+    const NAMES: [&str; 2] = ["csr", "csc"];
+    let mut stars = 0;
+    let mut regular = 0;
+    for &d in &ds {
+        // identity partition (d + 1 distinct parts around the hub): every star kind, the hub first,
+        // last and in the middle, both storage flags
+        for kind in 0..3 {
+            for name in NAMES.iter().copied() {
+                let hub = [0, d, d / 2][(kind + d) % 3];
+                let idm = if ctx.rng.chance(3, 4) { 0 } else { ctx.rng.usize(4) };
+                let wmode = ctx.rng.usize(4);
+                seam_star(ctx, d, hub, kind, 0, idm, wmode, name);
+                stars += 1;
+            }
+        }
+        // the other distinct-part counts
+        for mode in 1..SEAM_MODES.len() {
+            for name in NAMES.iter().copied() {
+                let kind = ctx.rng.usize(3);
+                let hub = [0, d, d / 2, ctx.rng.usize(d + 1)][ctx.rng.usize(4)];
+                let idm = ctx.rng.usize(4);
+                let wmode = ctx.rng.usize(4);
+                seam_star(ctx, d, hub, kind, mode, idm, wmode, name);
+                stars += 1;
+            }
+        }
+        // every row with exactly d entries
+        let dense = d <= dense_cap || (!ctx.quick() && (255..=257).contains(&d));
+        if dense {
+            for name in NAMES.iter().copied() {
+                let wmode = ctx.rng.usize(3);
+                seam_regular(ctx, d, 0, 0, 0, 0, wmode, name);
+                let pk = ctx.rng.usize(4);
+                seam_regular(ctx, d, 2, pk, 0, 0, wmode, name);
+                regular += 2;
+            }
+            if d <= dense_cap {
+                let (idm, wmode, mode) = (ctx.rng.usize(4), ctx.rng.usize(4), 1 + ctx.rng.usize(6));
+                let name = NAMES[ctx.rng.usize(2)];
+                seam_regular(ctx, d, 1, 4, mode, idm, wmode, name);
+                let (idm, wmode, pk, mode) = (ctx.rng.usize(4), ctx.rng.usize(4), ctx.rng.usize(5), ctx.rng.usize(7));
+                let name = NAMES[ctx.rng.usize(2)];
+                seam_regular(ctx, d, 3, pk, mode, idm, wmode, name);
+                regular += 2;
+            }
+        }
+    }
+    let randoms = ctx.budget(600, 12000);
+    for _ in 0..randoms {
+        seam_random(ctx);
+    }
+    ctx.notes.push(format!(
+        "degree x distinct-parts seams: {} degrees (0..=80{}), {} star cases, {} all-rows-of-degree-d cases (cliques, circulants; d <= {}), {} randomised; both storage flags",
+        ds.len(),
+        if ctx.quick() { ", 126..129, 254..257" } else { ", 81..=260, 511..513, 1023..1025" },
+        stars,
+        regular,
+        dense_cap,
+        randoms
+    ));
 }
 
 fn grid_op(w: usize, h: usize, d: Option<usize>, p: &[usize], ws: &[i64]) -> String {
@@ -2475,6 +2944,8 @@ pub fn generate(ctx: &mut Ctx) {
     // 3. large sizes and parameter corners
     gen_large(ctx);
     gen_special(ctx);
+    // 3b. rows of exactly d entries x number of distinct parts around them, both storage flags
+    gen_seams(ctx);
     // 4. random streams
     for _ in 0..ctx.budget(2500, 60000) {
         gen_csr(ctx);
